@@ -77,11 +77,42 @@ def r_C29(root):
     inst += run_region(ex.body, init, E, out, "model_export_to_file._export")
     sg = find(t, "model_export_to_file._export_subgraph")
     inst += run_region(sg.body, {"m": False, "obj": False}, E, out, "model_export_to_file._export_subgraph")
-    # C29.b escape table
-    de = find(t, "dot_escape"); inst += 1
-    reps = {c.args[0].value for c in calls(de) if callee_name(c) == "replace" and isinstance(c.args[0], ast.Constant)}
-    need = {'"', "\\", "{", "}", "|", "<", ">", "\n"}
-    if not need <= reps: out.append(Finding("C29", "C29.b", E, "dot_escape", str(sorted(reps)), "record-label special characters not escaped: %s" % sorted(need - reps)))
+    # C29.b escape table, by evaluation (sa/pyeval.py) of dot_escape on sample texts: every character that is special inside a
+    # record label comes out backslash-escaped exactly once (a newline as \n), other characters unchanged
+    from sa import pyeval as _pe
+    de = find(t, "dot_escape"); p0_ = de.args.args[0].arg
+    SPECIAL = {'"': '\\"', "\\": "\\\\", "{": "\\{", "}": "\\}", "|": "\\|", "<": "\\<", ">": "\\>", "\n": "\\n"}
+    samples_ = list(SPECIAL) + ["a", "a b", 'say "hi"', "a|b{c}", "x\\<y", "l1\nl2", "<<>>", "{|}", "\\\\", '\\"', "plain_text-1"]
+    bad_ = None
+    for smp in samples_:
+        inst += 1
+        try: got_ = _pe.run_block(de.body, {p0_: smp, "__module__": t, "__functions__": {k_: v_ for k_, v_ in helper_functions(root, E, "dot_escape").items() if k_ != "dot_escape"}})
+        except _pe.Unsupported as u_: raise AnalysisError("dot_escape: outside the evaluated subset: %s" % u_)
+        except _pe.Raised as r_: got_ = "raise " + r_.cls
+        # reference: one left-to-right pass; characters beyond the documented table may be escaped too (a backslash in front of any
+        # other punctuation is harmless in a record label) but the documented ones must be, and letters/digits/blanks stay
+        okc_ = isinstance(got_, str)
+        if okc_:
+            i_ = 0; j_ = 0
+            while i_ < len(smp) and okc_:
+                ch = smp[i_]
+                if ch == "\n":                       # a newline must not stay raw; as \n (line break) or \\n (the two characters) the label stays well-formed
+                    if got_.startswith("\\\\n", j_): j_ += 3
+                    elif got_.startswith("\\n", j_): j_ += 2
+                    else: okc_ = False
+                elif ch in SPECIAL:
+                    okc_ = got_.startswith(SPECIAL[ch], j_); j_ += len(SPECIAL[ch])
+                elif ch.isalnum() or ch in " _-":
+                    okc_ = got_.startswith(ch, j_); j_ += 1
+                else:
+                    if got_.startswith("\\" + ch, j_): j_ += 2
+                    elif got_.startswith(ch, j_): j_ += 1
+                    else: okc_ = False
+                i_ += 1
+            okc_ = okc_ and j_ == len(got_)
+        ob("C29", "C29.b", E, "dot_escape", "%r -> %r" % (smp, got_), okc_)
+        if not okc_ and bad_ is None: bad_ = (smp, got_)
+    if bad_: out.append(Finding("C29", "C29.b", E, "dot_escape", "dot_escape(%r)" % bad_[0], "the label text %r is escaped to %r: every character that is special in a record label (quote, backslash, braces, bar, angle brackets, newline) must come out backslash-escaped exactly once and nothing else may change" % bad_, witness="an attribute value or match-rule text containing %r" % bad_[0]))
     # metamodel export: match-rule bodies must be escaped before they are rendered
     for q, san in (("DotRenderer.get_match_rules_table", "html_escape"), ("PlantUmlRenderer.get_trailer", "dot_escape")):
         inst += 1
